@@ -228,7 +228,7 @@ CHECKS['C06'] = {
              'rtrim/ltrim/trim and raw forms with four trim sets (isspace default, "a", " \\0", "\\xE9a"), setn for every k in 0..mem+1, setn_, setm, exit (ownership hand-over), swap, a_utf_catc at every '
              'UTF-8 length boundary, a_utf_len, catf with six formats; and length-focused (single letter, length <= N) with appends of every length 0..17 and catf("%s") of every argument length 0..17 so that the '
              'formatted text under-fills, exactly fills and over-fills the spare room at every fill level (one-pass and two-pass vsnprintf paths). Content, length<=capacity, NUL placement of the terminating '
-             'variants, return values and the allocator ledger are checked after every call; comparison functions are checked on all ordered pairs of strings of length <= 4 (5 thorough); a sweep over all 256 byte values takes each through the one-byte and the block appends / pops of both variants, "%s" formatting, one-byte trim sets, white-space trimming and comparison. '
+             'variants, return values and the allocator ledger are checked after every call; comparison functions are checked on all ordered pairs of strings of length <= 4 (5 thorough); a sweep over all 256 byte values takes each through the one-byte and the block appends / pops of both variants, "%s" formatting, one-byte trim sets, white-space trimming and comparison; comparison of operands whose lengths differ by 2^31-1 .. 2^33 (the long one an untouched 8 GiB anonymous mapping starting with the short one). '
              'Operations whose result leaves the alphabet (code points, formatted numbers) are executed and checked from every state but their successors are not expanded.'),
     'assumptions': ['host vsnprintf is the definition of what the C formatter produces', 'the raw setters a_str_setn_/a_str_setm_ are driven within their documented preconditions (k <= capacity); a_str_setm_ below the length is a capacity operation the statement does not list',
                     'isspace is evaluated in the "C" locale'],
@@ -395,7 +395,7 @@ CHECKS['C09'] = {
     'title': 'matrix product, transpose and structure kernels match their definitions', 'level': 'exploration', 'engine': 'grid', 'jobs': c09_jobs,
     'rule': ('complete enumeration of shapes against integer references computed from the definitions: the four product variants (mulmm, mulTm, mulmT, mulTT, with the argument order documented in linalg.h) on EVERY (row, inner, col) in 1..20^3 (1..48^3 thorough; blocked implementations meet each of their remainders and panel boundaries at 8, 16, 32), each shape also with BOTH OPERANDS BEING THE SAME ARRAY, '
              'with index-coded operands (X[i][j] = 1+64i+j, Y = distinct primes; all products exact in float and double, a wrong index anywhere changes the result) plus ALL pairs of single-entry 0/1 operands for dimensions <= 3 (bilinearity pins every coefficient); '
-             'T1, T2, eye1/2, tri1/2, diag, diag1/2, triL, triL1, triL2, triU, triU1, triU2 on EVERY (m, n) in 1..20^2 (1..64^2 thorough): wide, square and tall, with three operand patterns (index-coded; signed zeros; negative and infinite off-diagonal entries) compared BIT FOR BIT; T2 twice and T1 twice restore the input. Every output lives between 24 pairwise distinct guard cells on each side and is pre-filled with stale non-zero data; inputs must be unchanged. '
+             'T1, T2, eye1/2, tri1/2, diag, diag1/2, triL, triL1, triL2, triU, triU1, triU2 on EVERY (m, n) in 1..20^2 (1..64^2 thorough): wide, square and tall, with three operand patterns (index-coded; signed zeros; negative and infinite off-diagonal entries) compared BIT FOR BIT; T2 twice and T1 twice restore the input; diag1 / diag2 additionally on 65537^2, 70001^2, 65540x65537 and 3x(2^31+5) matrices (element indices beyond 32 bits) held in untouched anonymous address space with only the diagonal written. Every output lives between 24 pairwise distinct guard cells on each side and is pre-filled with stale non-zero data; inputs must be unchanged. '
              'Every argument of every call is wrapped in an evaluation counter (one evaluation per parameter). Both real widths plain and under ASan, plus long double reals with operands that need more than 53 bits. distinct_nontrivial counts non-square shapes.'),
     'assumptions': ['matrix contents beyond the index-coded and single-entry families are covered by bilinearity of the product and by the kernels being data-independent (they contain no branch on element values)'],
     'design_ref': '§4.C09', 'technique': 'complete enumeration of all small shapes (square and rectangular) with index-coded and single-entry operands against integer references, guard cells + ASan',
@@ -499,7 +499,7 @@ def c16_jobs(tier):
 CHECKS['C16'] = {
     'title': 'transfer function and RC filters realise their difference equations exactly', 'level': 'model_checking', 'engine': 'grid', 'jobs': c16_jobs,
     'rule': ('exhaustive enumeration of operation sequences on the real filters against a reference evaluated on the whole recorded history (time-indexed sums, no delay line): transfer function - EVERY numerator and denominator order 0..3 (and, with tap-identifying coefficient vectors and impulse/ramp/sign-pattern words, every order pair up to 11/11 quick, 20/20 thorough), EVERY coefficient vector over {-1,0,1,2} (denominator {-1,0,1} in quick; 3400 filters quick, 7225 thorough), '
-             'EVERY input word of length 5 (7 thorough) over {-1,0,1,2}, with a zeroing inserted after 1, 3, .. samples (the suffix must then behave as on a fresh filter); integers, so all comparisons are exact; guard cells around both delay lines, stale contents before init. Linearity (2x, x1+x2) and time invariance (leading zero sample) on ALL pairs of words of length 3 (4 thorough); samples scaled by +-2^e with e near both ends of the range of the real type (5 filters x 3 words): every output is the scaled output bit for bit. '
+             'EVERY input word of length 5 (7 thorough) over {-1,0,1,2}, with a zeroing inserted after 1, 3, .. samples (the suffix must then behave as on a fresh filter); integers, so all comparisons are exact; guard cells around both delay lines, stale contents before init. Linearity (2x, x1+x2) and time invariance (leading zero sample) on ALL pairs of words of length 3 (4 thorough); samples scaled by +-2^e with e near both ends of the range of the real type (5 filters x 3 words): every output is the scaled output bit for bit; one side replaced on a live filter (a_tf_set_den / a_tf_set_num with no taps or two zero taps after 1, 2, 3, 5 samples): the other side keeps its history. '
              'RC filters: alpha in {0,1/8,1/4,1/2,3/4,1} x EVERY word of length 7 (9) over {-2,0,1,3}: low-pass output stays in the range of 0 and the values fed so far and equals the convex combination exactly, high-pass equals alpha*(y + x - x_prev); 400-step settling / decay on constant inputs; extreme-magnitude words (+-REAL_MAX, 1e16) for the range clause; generators on fc, ts in 10^-12..10^12 and on cut-off frequencies at both ends of the normal range of the real type with sample times that keep the product moderate (in [0,1], strictly inside for 1e-12 <= fc*ts <= 1e12, macros and C++ members agree, monotone). '
              'states = distinct delay-line contents reached, transitions = filter steps executed, traces_validated_against_impl = input words executed on the real code.'),
     'assumptions': ['integer / dyadic coefficients and inputs make every filter step exact, so outputs are compared with ==', 'unstable filters make the state space infinite, hence the depth bound; stable and nilpotent coefficient sets are included in the same enumeration'],
@@ -585,7 +585,7 @@ def c10_jobs(tier):
 
 CHECKS['C10'] = {
     'title': 'complex arithmetic and functions are correct in every build configuration', 'level': 'exploration', 'engine': 'grid', 'jobs': c10_jobs,
-    'rule': ('bounded-exhaustive enumeration of an argument lattice per build configuration against libquadmath (__complex128): real and imaginary parts from {0, +-m*2^e: e in {-60,-30,-10,-3,-1,0,1,3,10,30,60}, m in {1,1.25,1.5,1.9375}} plus every constant the fallback bodies branch on (1, 1.5, 0.6417, 0.1, 0.5, 2, pi/2, pi, 0.25) one ulp on either side: 125 values per axis, 15625 points per function, all four quadrants and both axes. '
+    'rule': ('bounded-exhaustive enumeration of an argument lattice per build configuration against libquadmath (__complex128): real and imaginary parts from {0, +-m*2^e: e in {-60,-30,-10,-3,-1,0,1,3,10,30,60}, m in {1,1.25,1.5,1.9375}}, the bands 16..62 (where exp(-2|y|) drops below the rounding unit) and 80..768 (both sides of where exp(|y|) leaves the float / double range), plus every constant the fallback bodies branch on (1, 1.5, 0.6417, 0.1, 0.5, 2, pi/2, pi, 0.25) one ulp on either side: about 150 values per axis, over 20000 points per function, all four quadrants and both axes. '
              'Functions: 32 unary functions in their two-argument and in-place forms (sqrt, exp, log, log2, log10, six trigonometric, six inverse trigonometric, six hyperbolic, six inverse hyperbolic, inv, neg, conj), abs/abs2/logabs/arg, polar, seven real-argument variants inside their real domain, and on operand pairs of a coarser lattice: add/sub/mul/div with complex, real-scalar and imaginary-scalar second operand, pow, pow_real, logb, and the inverse pairs (z*s)/s, (z*is)/(is), exp(log z), log(exp z), inv(inv z). '
              'Tolerance per point: |lib - ref| <= 32 * (eps*|w| + spread) where spread is the change of the reference under perturbations of 4 eps |z| of the argument, i.e. eps x condition x |w| measured at that point (worst observed on the unchanged tree: 8 for pow, below 3 elsewhere). Points where the reference is discontinuous under those perturbations (branch cuts), not finite (poles, overflow) or under-/overflowing are excluded by that rule (2.8%% of the lattice). '
              'Configurations: quick = {every A_HAVE_* switch on, every switch off} x {double, float}; thorough = additionally each of the 23 switches flipped alone from each extreme (96 configurations). distinct_nontrivial = lattice points actually judged (not excluded).'),
@@ -622,7 +622,7 @@ CHECKS['C11'] = {
     'rule': ('bounded-exhaustive enumeration against libquadmath (double build) / the host double libm (float build, univariate sweep). asinh, acosh, atanh, expm1, log1p: both the library fallback bodies (always compiled, called by symbol) and the names as bound by the build configuration; '
              'float width: ALL 2^32 bit patterns in thorough (a complete decision for that configuration), every pattern with the low 11 mantissa bits zero (2^21) in quick; double width: every (sign, exponent, top 6 / 10 mantissa bits) pattern; plus every branch constant of the fallbacks (sqrt eps, 1/sqrt eps, 2, 1, 1/2, eps) +-2 ulp. '
              'Error budget 8 eps of the exact value (the argument is an exact floating-point number, so no conditioning allowance; worst observed on the unchanged tree 2.1 eps). atan2 (fallback and bound) on all pairs of a 60-value axis including exact axis points, RMIN, RMAX and magnitudes 2^+-1000; norm2 / hypot, norm3, norm and norm_ with strides 1..3 (gaps poisoned with huge values) including values whose squares over- or underflow: within 4-8 eps whenever the true norm is representable; '
-             'polar / spherical conversions with round trips; sum, sum1, sum2, mean, dot and strided forms, copy, swap, fill, zero, push_fore/back(_), roll_fore/back(_) for EVERY length 0..6, strides 1..3 (stride pairs for dot_/copy_), cache / shift lengths 0..7 with small-integer contents (exact comparison) and guard cells; means of all vectors of length 1..3 over {+-MAX, +-MAX/2, 1} (the mean is representable where the plain sum is not). '
+             'polar / spherical conversions with round trips, and directly with every returned coordinate within 8 eps of its own size (tiny angles, many turns, the neighbours of pi/2, pi, 3pi/2); sum, sum1, sum2, mean, dot and strided forms, copy, swap, fill, zero, push_fore/back(_), roll_fore/back(_) for EVERY length 0..6, strides 1..3 (stride pairs for dot_/copy_), cache / shift lengths 0..7 with small-integer contents (exact comparison) and guard cells; means of all vectors of length 1..3 over {+-MAX, +-MAX/2, 1} (the mean is representable where the plain sum is not). '
              'Configurations: quick = every real switch on / every switch off x {double, float}; thorough adds each of the 7 real switches flipped alone from each extreme (float: complete sweep in each of these 16 configurations too). distinct_nontrivial counts evaluations with a non-zero reference / more than one element.'),
     'assumptions': ['libquadmath is the reference; for the univariate sweep of the float build the host double-precision libm (error 2^-29 float eps) is the reference, which makes the complete 2^32 sweep affordable', 'signed zeros are not distinguished (the statement names quadrants and axes)', 'double-width univariate helpers are covered on the (sign, exponent, leading mantissa bits) lattice, not completely'],
     'design_ref': '§4.C11', 'technique': 'complete enumeration of the float domain (2^32 bit patterns per function in thorough) and stated double lattices against quad-precision references; exact integer references for reductions and movers',
